@@ -126,7 +126,8 @@ def render_amount(cents, style, decimal):
 
 
 BAD_AMOUNTS = ['', ' ', 'abc', '1x2', '--5', 'N/A', '$', '()', '1,2,3.4.5x', '0', '0.00', '-0.0', '(0.00)', '$0', '0,00', 'nan', 'inf', '-Infinity', 'NaN', '+inf']
-BAD_DATES = ['', 'not a date', '13/45/2024', '2024-02-30', '00/00/0000', '31-31-2024', 'yesterday', '2024/99/99', '99999999']
+BAD_DATES = ['', 'not a date', '13/45/2024', '2024-02-30', '00/00/0000', '31-31-2024', 'yesterday', '2024/99/99', '99999999', '20240309', '2024-03-10T08:30', '2024-W10-3',
+             '2024-03-10 08:30:00+00:00', '03/10/24x', '2024-3', '10.3.2024.', '1/2/3/4']
 
 
 @st.composite
@@ -169,6 +170,8 @@ def date_cell(r, fmt):
         sep = '/' if '/' in fmt else '.'
         parts = s.split(sep)
         s = sep.join([str(int(parts[0])), str(int(parts[1])), parts[2]])
+    elif r['unpadded'] and fmt == '%Y-%m-%d':
+        s = f'{d.year}-{d.month}-{d.day}'  # %m and %d accept one digit
     return s
 
 
@@ -213,6 +216,16 @@ def build(case):
         lines_cells.append(cells)
         # ---- expectation by construction
         good = r['kind'] in ('good', 'long', 'empty_desc') or (r['kind'] == 'short' and r['cut'] > max_needed and dialect != 'regex')
+        row_date = date.fromisoformat(r['date'])
+        if r['kind'] == 'bad_date':
+            # "a date matching the date format": the format language is strptime's, so a generated odd spelling is bad iff strptime rejects it;
+            # a spelling that happens to be a date in this format makes the row well-formed with that date
+            cell = r['bad'].strip()
+            try:
+                row_date = datetime.strptime(cell.split()[0] if (' ' not in lay['datefmt'] and cell) else cell, lay['datefmt']).date()
+                good = True
+            except (ValueError, IndexError):
+                pass
         if lay['template'] is not None:
             desc = lay['template'].format(**{k: v.strip() for k, v in customs.items()}) if r['kind'] != 'empty_desc' else lay['template'].format(**{k: '' for k in customs})
         else:
@@ -225,7 +238,7 @@ def build(case):
             value = abs(value)
         elif lay['sign'] in ('-', 'override'):
             value = -value
-        exp = {'date': datetime.combine(date.fromisoformat(r['date']), datetime.min.time()), 'raw_description': desc, 'amount': value, 'source': lay['source'],
+        exp = {'date': datetime.combine(row_date, datetime.min.time()), 'raw_description': desc, 'amount': value, 'source': lay['source'],
                'field': ({k: v.strip() for k, v in customs.items()} or None), 'is_credit': value < 0}
         if 'location' in lay['cols'] and r['loc'].strip():
             exp['location'] = r['loc'].strip()
